@@ -324,6 +324,40 @@ fn order_in_documents(ctx: &mut Ctx, a: &Num, b: &Num, wide: bool) {
     }
 }
 
+/// the second number written as a literal in a path filter and compared with the first one in a
+/// document: the literal denotes its number exactly (integers up to u64::MAX included) and the
+/// comparison is the numeric one
+fn order_in_paths(ctx: &mut Ctx, a: &Num, b: &Num) {
+    if !b.is_finite() {
+        return;
+    }
+    ctx.count("order.in-paths");
+    let lit = String::from_utf8(crate::refjson::compact(&Tree::Num(*b))).unwrap();
+    let doc = refcodec::encode(&Tree::Arr(vec![Tree::Num(*a)]));
+    let e = refnum::cmp(a, b);
+    let item = refcodec::encode(&Tree::Num(*a));
+    for (op, holds) in [("==", e == Ordering::Equal), ("<", e == Ordering::Less), (">=", e != Ordering::Less), ("!=", e != Ordering::Equal)] {
+        for text in [format!("$[*] ? (@ {} {})", op, lit), format!("$[0] {} {}", op, lit)] {
+            let info = || format!("path={:?} a={} b={}", text, a.show(), b.show());
+            match super::paths::select(text.as_bytes(), &doc, 0) {
+                super::paths::Sel::Panic(p) => ctx.panic_violation("select(number literal)", &p, &info),
+                super::paths::Sel::ParseErr => ctx.violation("select(number literal)/literal-rejected", || info()),
+                super::paths::Sel::Err(x) => ctx.violation("select(number literal)/err", || format!("{} ; {}", x, info())),
+                super::paths::Sel::Ok(s) => {
+                    let want: Vec<u8> = if text.starts_with("$[*]") {
+                        if holds { item.clone() } else { Vec::new() }
+                    } else {
+                        refcodec::encode(&Tree::Bool(holds))
+                    };
+                    if s.data != want {
+                        ctx.violation(&format!("select(number literal)/wrong/{}", order_sig(a, b)), || format!("got {} expected {} ; exact order of a and b: {:?} ; {}", hex(&s.data), hex(&want), e, info()));
+                    }
+                }
+            }
+        }
+    }
+}
+
 fn order_sig(a: &Num, b: &Num) -> &'static str {
     match (a.int().is_some(), b.int().is_some()) {
         (true, true) => "int-int",
@@ -514,6 +548,9 @@ pub fn run(ctx: &mut Ctx) {
                 if (x + y) % 5 == 0 && !ctx.miri {
                     order_in_documents(ctx, a, b, (x + y) % 35 == 0);
                 }
+                if (x + y) % 5 == 1 && !ctx.miri {
+                    order_in_paths(ctx, a, b);
+                }
             }
         }
         ctx.exhaustive.insert("pool_pairs(boundary pool x boundary pool)".into(), !ctx.miri);
@@ -553,6 +590,9 @@ pub fn run(ctx: &mut Ctx) {
         order_pair(ctx, &a, &b);
         if i % 8 == 5 {
             order_in_documents(ctx, &a, &b, i % 64 == 5);
+        }
+        if i % 8 == 6 {
+            order_in_paths(ctx, &a, &b);
         }
         if i % 4 == 0 {
             let lit = literal(&mut rng);
